@@ -117,7 +117,8 @@ def finish_special(rep, pid, failures_are_inputless=True, extra_cov=None, known_
             vals = {}
             for st in f.get("trace") or []:
                 if st.get("stepType") == "assignment" and re.search(r"(ghost_|OBS_|IN_)", str(st.get("lhs", ""))) and "value" in st:
-                    vals[str(st["lhs"])] = st["value"].get("data", st["value"].get("binary"))
+                    v = st["value"]
+                    vals[str(st["lhs"])] = v.get("binary") if (v.get("name") == "float" and v.get("binary")) else v.get("data", v.get("binary"))
             rec = {"property": pid, "obligation": f["property"], "description": f["description"], "function": t["dem"], "source": t["file"],
                    "counterexample_values": vals, "note": t.get("note"), "native": t.get("native")}
             nat = None
@@ -131,7 +132,7 @@ def finish_special(rep, pid, failures_are_inputless=True, extra_cov=None, known_
             with open(path, "w") as fh:
                 json.dump(rec, fh, indent=1)
             if nat is not None and nat.get("reproduced") is False:
-                rep.infra.append({"fn": t["dem"], "detail": "counterexample of %s does not reproduce on the real code" % f["property"]})
+                rep.infra.append({"fn": t["dem"], "detail": "counterexample of %s does not reproduce on the real code: %s" % (f["property"], str(nat.get("output"))[-200:])})
                 continue
             sfx = "" if (nat and nat.get("reproduced")) else " no-failing-input-found"
             viol_lines.append("VIOLATION property=%s replay=%s%s" % (pid, path, sfx))
